@@ -1047,6 +1047,10 @@ impl ActiveFile {
 
         let file = fs.open_existing(file_path)?;
 
+        // The file may have been created by an attempt that failed or crashed
+        // before its existence was synced to the parent directory
+        fs.sync_parent(file_path)?;
+
         let file_size_bytes = file.len()?;
 
         Ok(ActiveFile {
